@@ -67,3 +67,14 @@ package antispam
 //@     pure
 //@     set gx := r
 //@     set nload := nload + 1
+
+// antispamData.Get: an absent meta key is *nil* (the do_if `equal` op tells null /
+// absent from the empty string); a present one is its bytes.
+
+//@ func (*antispamData).Get
+//@   ghost gok bool = false
+//@   ghost nlook int = 0
+//@   ensures nlook == 1 && !gok ==> isnil(result)
+//@   callee maplookup:meta(k) (v, ok)
+//@     set gok := ok
+//@     set nlook := nlook + 1
